@@ -18,9 +18,11 @@
    attributes listed in the serializer's order with distinct expanded names, comment content passes
    CommentNode._validate_content, PI content without "?>", target not "xml", characters are XML Chars)
    plus the property's exclusions (no CR in text / comments / PIs, no TAB LF CR in attribute values and
-   namespace names) plus the guards of the OPEN findings (no attribute called "xmlns" and nothing in the
-   xmlns namespace: C02-attribute-named-xmlns; PI content not starting with white space:
-   C02-pi-content-leading-whitespace).  caller_prefixes_ncname: the caller's prefixes are NCNames (the code does
+   namespace names).  Attribute names and PI content are what the GENERATED validators TagAttributes._validate_name
+   and ProcessingInstructionNode._validate_content let through (Gen/GenNsValidators.v, regenerated from the source on
+   every run; RoundTrip.attr_validator_ok / pi_validator_ok derive what the proof uses), comment content what the
+   generated CommentNode._validate_content lets through.  One guard of an OPEN finding remains: no element in the
+   xmlns namespace (C02-element-in-xmlns-namespace).  caller_prefixes_ncname: the caller's prefixes are NCNames (the code does
    not check it; a prefix with a colon or a space gives output that is not XML).
    Empty and adjacent text nodes are covered (Xml/EmptyTrip.v): an element whose only children are empty text
    nodes is written <r></r>, read as a childless element, which is what merge_tree makes of it.
@@ -45,7 +47,7 @@
    TagNode.serialize byte for byte. *)
 From Coq Require Import List NArith Bool.
 From Delb.Base Require Import PyStr PyDict.
-From Delb.Gen Require Import GenNames GenNs.
+From Delb.Gen Require Import GenNames GenNs GenNsValidators.
 From Delb.Tree Require Import ATree Merge MergeFacts.
 From Delb.Ns Require Import Namespaces Prefixes PrefixFacts.
 From Delb.Xml Require Import Plain Reader Tokens RoundTrip NsResolve MergeTrip EmptyTrip.
@@ -133,7 +135,7 @@ Example C02_example_hypotheses :
 Proof.
   split.
   { split; [reflexivity|]. cbn [wf_node c02_example_tree]. unfold uri_ok, attr_wf, text_char_ok, attr_char_ok.
-    repeat (split || constructor); try reflexivity; discriminate. }
+    repeat (split || constructor); try reflexivity; try discriminate. }
   split.
   { split; [repeat constructor; cbn; intuition discriminate|]. eexists. vm_compute. reflexivity. }
   split; [|vm_compute; reflexivity].
@@ -151,14 +153,16 @@ Example C02_regression_empty_text :
   reparse (serialize [] (default_order (bfs_of t)) t) = Some (merge_tree t).
 Proof. vm_compute. reflexivity. Qed.
 
-(* C02-pi-content-leading-whitespace: <?t  x?> is read back with content "x" *)
-Theorem C02_pi_leading_whitespace_refuted : exists t t',
-  reparse (serialize [] (default_order (bfs_of t)) t) = Some t' /\ t' <> merge_tree t.
+(* regression (C02-pi-content-leading-whitespace, fixed: ProcessingInstructionNode._validate_content): the generated
+   validator refuses the witness, and the refusal is needed - the serializer model reads <?t  x?> back with "x" *)
+Example C02_regression_pi_leading_whitespace :
+  pi_content_refused [32; 120]%N = true /\ pi_content_refused [10]%N = true /\ pi_content_refused [120; 32]%N = false
+  /\ exists t t', reparse (serialize [] (default_order (bfs_of t)) t) = Some t' /\ t' <> merge_tree t.
 Proof.
+  repeat (split; [reflexivity|]).
   exists (Tag [] [114%N] [] [PI [116%N] [32; 120]%N]). eexists. split; [vm_compute; reflexivity|].
   vm_compute. intros H. discriminate H.
 Qed.
-Print Assumptions C02_pi_leading_whitespace_refuted.
 
 (* regression (C02-namespace-uri-not-escaped, fixed by d973cc6): the namespace a&b is escaped in the declaration *)
 Example C02_regression_namespace_uri :
@@ -166,11 +170,15 @@ Example C02_regression_namespace_uri :
   reparse (serialize [] (default_order (bfs_of t)) t) = Some (merge_tree t).
 Proof. vm_compute. reflexivity. Qed.
 
-(* C02-attribute-named-xmlns: the attribute is read back as a default namespace declaration *)
-Theorem C02_attribute_named_xmlns_refuted : exists t t',
-  reparse (serialize [] (default_order (bfs_of t)) t) = Some t' /\ t' <> merge_tree t.
+(* regression (C02-attribute-named-xmlns, fixed: TagAttributes._validate_name): the generated validator refuses the
+   name in every namespace and every name in the xmlns namespace, and the refusal is needed - the attribute is read
+   back as a default namespace declaration *)
+Example C02_regression_attribute_named_xmlns :
+  attribute_name_refused [] XMLNS_ = true /\ attribute_name_refused [117%N] XMLNS_ = true
+  /\ attribute_name_refused xmlns_ns [107%N] = true /\ attribute_name_refused [] [107%N] = false
+  /\ exists t t', reparse (serialize [] (default_order (bfs_of t)) t) = Some t' /\ t' <> merge_tree t.
 Proof.
+  repeat (split; [reflexivity|]).
   exists (Tag [] [114%N] [([], XMLNS_, [117; 57]%N)] [Tag [] [97%N] [] []]). eexists. split; [vm_compute; reflexivity|].
   vm_compute. intros H. discriminate H.
 Qed.
-Print Assumptions C02_attribute_named_xmlns_refuted.
